@@ -58,6 +58,14 @@ Definition is_comment_node (t : tree) : bool :=
 
 Definition has_comment_children (t : tree) : bool := existsb is_comment_node (children t).
 
+(* import.rs contains_comment: the node is a comment or has one anywhere below it *)
+Fixpoint contains_comment (t : tree) : bool :=
+  is_comment_node t ||
+  match t with
+  | Leaf _ _ _ => false
+  | Inner _ cs _ => existsb contains_comment cs
+  end.
+
 (* A well-founded induction principle for trees with nested lists. *)
 Section TreeInd.
   Variable P : tree -> Prop.
